@@ -262,7 +262,10 @@ func (e *schedEngine) step(t *sthread) {
 	e.log(fmt.Sprintf("%s:go:%s", t.name, t.point))
 	t.state = "running"
 	t.resume <- struct{}{}
-	e.await(t, e.wait)
+	if !e.await(t, e.wait) {
+		// no arrival within the grace period: the thread is blocked (or slow); from here on it may run in parallel with others
+		e.log(fmt.Sprintf("%s:blocked:%s", t.name, t.point))
+	}
 }
 
 func (e *schedEngine) await(t *sthread, d time.Duration) bool {
